@@ -123,7 +123,7 @@ theorem flat_step_ok (H : Heap) (kindOf : Ptr → Kind × Nat) (fuel fuel' : Nat
       simp only [Option.some.injEq] at a1
       subst a1
       rw [hk] at a4
-      have hid : id ≠ 0 := Nat.ne_of_gt (inv.tab p id h1).1
+      have hid : id ≠ 0 := Nat.ne_of_gt (tableOK_lookup inv.tab h1).1
       exact ⟨_, de_strong_alias k tid id hid payload hp ht D inv.opn a6 q a4⟩
     · have hid : S.next ≠ 0 := Nat.ne_of_gt inv.next1
       have hfresh : D.store.lookup (k, S.next) = none := by
@@ -141,7 +141,7 @@ theorem flat_step_ok (H : Heap) (kindOf : Ptr → Kind × Nat) (fuel fuel' : Nat
     · exact ⟨_, de_weak_dangling k tid D⟩
     · obtain ⟨q, payload0, a1, a2, a3, a4, a5, a6⟩ := inv.stored p id h1
       rw [hk] at a4
-      have hid : id ≠ 0 := Nat.ne_of_gt (inv.tab p id h1).1
+      have hid : id ≠ 0 := Nat.ne_of_gt (tableOK_lookup inv.tab h1).1
       exact ⟨_, de_weak_alias k tid id hid payload0 a2 D inv.opn a6 q a4⟩
     · rcases hseen with hn | hs
       · rw [hn] at hl; cases hl
